@@ -517,6 +517,10 @@ def scenarios(ctx):
             files.append(('C17_sc_%d' % sc['id'], '\n'.join(body) + '\n'))
         predicates(ctx, sc, r, results, violation)
     out = lib.run_case_files(files, timeout=900)
+    # a case file that did not compile (killed under memory pressure, timeout) is retried once, alone
+    again = [(n, t) for n, t in files if out[n][0] != 0]
+    for n, t in again[:6]:
+        out.update(lib.run_case_files([(n, t)], timeout=1200, jobs=1))
     got = {}
     for n, (rc, so, se, secs) in out.items():
         if rc != 0:
